@@ -165,6 +165,16 @@ Theorem C20_slice_rect_support : forall h d (pz : Q) (w z : Z),
 Proof. intros. split; [apply rect_spec|apply support_in_window]. Qed.
 Print Assumptions C20_slice_rect_support.
 
+(* identity rotation + rectangular profile of half-width h (h <= width, which _find_width guarantees, see below): EVERY in-volume
+   voxel of the pixel's column with |z_line - z| <= h has an entry in the row and all of them carry the same weight
+   fraction_in_view / (s + 1e-6): the profile is followed over its whole support (width 6 -> 6 equal taps) *)
+Theorem C20_slice_rect_taps_partial : forall g r c h, rot g = I3 -> prof g = rect h -> 0 <= h -> h <= inject_Z (width g) ->
+  forall z, inside g (z, pix_y g r, pix_x g c) = true -> Qabs (line_z g - inject_Z z) <= h ->
+  exists w, In ((z, pix_y g r, pix_x g c), w) (row g r c)
+            /\ w == fraction_in_view g (pixel_rot g r c) / (raw_sum g (pixel_rot g r c) + eps).
+Proof. exact rect_identity_taps. Qed.
+Print Assumptions C20_slice_rect_taps_partial.
+
 (* _find_width (as repaired) of a rectangular profile of half-width h is floor(h) + 1 >= h: checked by evaluation for
    half-widths 1/2 .. 4 (widths 1 .. 8 voxels) and volume sizes 4 .. 12 (finite domain, hence _partial) *)
 Example C20_find_width_rect_partial :
